@@ -1,6 +1,8 @@
 package vc
 
 import (
+	"go/types"
+	"sort"
 	"strings"
 
 	"golang.org/x/tools/go/ssa"
@@ -17,6 +19,14 @@ func (cr *CheckRun) CheckJSON(entries []CorpusEntry) {
 		if job.Em.W == nil || job.Em.LoadErr != nil || job.Em.GenErr != nil {
 			return
 		}
+		for _, fam := range []string{"json-marshal-inner", "json-marshal", "json-unmarshal-inner", "json-unmarshal"} {
+			if !familyDeclared(job.CS, fam) {
+				cr.mu.Lock()
+				cr.EngineErrors = append(cr.EngineErrors, "contract family `"+fam+"` is not declared in generator/contracts_emitted_verif.go")
+				cr.mu.Unlock()
+				return
+			}
+		}
 		jf := NewJSONFamily(job.Em)
 		jf.Install()
 		for _, f := range job.Em.W.Functions() {
@@ -29,6 +39,33 @@ func (cr *CheckRun) CheckJSON(entries []CorpusEntry) {
 			e.PostEncode = func() { tagJSON(e) }
 			cr.VerifyFunc(e, job.Em.Entry.Name, nil, nil)
 		}
+		if cr.Prop == "C06" {
+			var names []string
+			for n := range jf.Types {
+				names = append(names, n)
+			}
+			sort.Strings(names)
+			for _, n := range names {
+				jt := jf.Types[n]
+				if _, isStruct := jt.Named.Underlying().(*types.Struct); isStruct && jt.Schema.IsObjectLike() && jt.Problem == "" {
+					jf.RoundTripLemma(cr, jt, job.Em.Entry.Name)
+				}
+			}
+		}
+		// codec functions of this package that are not under contract
+		for _, f := range job.Em.W.Functions() {
+			switch f.Name() {
+			case "MarshalJSON", "UnmarshalJSON", "marshalJSONInnerBody", "unmarshalJSONInnerBody":
+				if f.Parent() == nil && job.Em.W.Contracts[f.String()] == nil && job.Em.W.IsModule(f) {
+					cr.Note("%s: %s is not under contract (oneOf / custom / primitive component or array decoding)", job.Em.Entry.Name, relName(f))
+				}
+			}
+		}
+		cr.mu.Lock()
+		cr.Assumed["protocol soundness: a writer in state 14 / 24 holds one syntactically valid JSON value (the state machine recognises a subset of the JSON grammar, given that Encode writes complete values)"] = true
+		cr.Assumed["MarshalJSON / marshalJSONInnerBody write no memory of their caller (frame; C20 proves the frame obligations of the same functions)"] = true
+		cr.Assumed["values whose AdditionalProperties keys collide with declared property names are excluded (they encode to duplicate member names)"] = true
+		cr.mu.Unlock()
 		for _, p := range jf.Problems {
 			cr.Note("%s: %s", job.Em.Entry.Name, p)
 		}
